@@ -39,7 +39,8 @@ RULE = ("random vertex/connectivity/mask triples, 0-60 vertices (thorough: up to
         "histories of 2-14 calls on one object (view reads by index incl. negative and out of range, iteration, len, "
         "segment_from_vertex_index, conversion, re-rooting, 1 in 7 also with user-assigned / appended segments); every new "
         "root for each tree and chains of 3 re-rootings; single morphologies and documents with 0-3 cells + 0-3 stand-alone "
-        "morphologies (ids None / distinct / colliding; 1 in 6 with non-array members). A case is non-trivial when it lies in "
+        "morphologies (ids None / distinct / colliding; 1 in 6 with non-array members; 1 in 4 with one morphology object shared "
+        "by several members). A case is non-trivial when it lies in "
         "the property's scope and: the tree has >= 3 vertices and is not the plain chain -1,0,1,.. (morph, hist; a history "
         "must also make two different kinds of call); additionally the new root is a valid non-root vertex (toroot); the "
         "document holds >= 2 array morphologies / the single morphology >= 2 vertices (file). "
@@ -58,12 +59,13 @@ TRUST = [
 ]
 ASSUMPTIONS = [
     "object names are NeuroML ids ([A-Za-z_][A-Za-z0-9_]*) that PyTables accepts (not starting with _c_/_f_/_g_/_v_, non-empty)",
-    "round trip theorem for documents assumes that every cell embeds an ArrayMorphology and every stand-alone morphology is "
-    "one, distinct top-level group names (cell ids + stand-alone morphology ids, after defaulting) and no cell morphology "
-    "called 'vertices'; each excluded class is an open known finding",
+    "round trip theorem for documents (any mix of cells with / without an embedded ArrayMorphology, plain and array stand-alone "
+    "morphologies) assumes distinct top-level group names among the members that are array morphologies (cell ids + stand-alone "
+    "morphology ids, defaulted by position); the excluded classes are the two open known findings (a cell and a stand-alone "
+    "morphology share a name; a default name equals an explicit id)",
     "view / conversion / re-rooting theorems assume a tree without floating vertices (one root, mask all false), as the "
-    "property does; the history theorem excludes reading the view after a to_root that follows a view read (open finding "
-    "C18:view-stale-after-toroot); other inputs are covered bug-for-bug by correspondence only",
+    "property does (the history theorem c18_history_full needs no assumption at all: any arrays, any calls, any indices); "
+    "other inputs are covered bug-for-bug by correspondence only",
     "array element values travel through HDF5 unchanged (exact for the int64/bool/dyadic float64 values generated; dtypes and "
     "shapes are compared by the oracle)",
     "slices of the view, ArrayMorphology.pop (declared failing by its own docstring), appending to a morphology built without "
@@ -71,14 +73,10 @@ ASSUMPTIONS = [
 ]
 
 DEN = 8
-# Which `to_root` the model executes inside a history.  False = the code as it is (the segment cache survives a
-# re-rooting: open finding C18:view-stale-after-toroot).  Set to True when fixes/C18-toroot-invalidates-cache.patch has
-# been applied to the library (model = `stepFixed`, theorem c18_history_fixed_full) and drop the finding.
-TOROOT_CLEARS_CACHE = bool(os.environ.get("VERIF_C18_TOROOT_CLEARS_CACHE"))
-# Same for fixes/C18-loader-vertices-is-array.patch (model = `loadFixed`, theorem c18_load_write_doc_fixedLoader).
-LOADER_FIXED = bool(os.environ.get("VERIF_C18_LOADER_FIXED"))
-# ... and for fixes/C18-writer-skips-non-array.patch (executable model `writeXDocFixed`; no theorem about it)
-WRITER_FIXED = bool(os.environ.get("VERIF_C18_WRITER_FIXED"))
+# The model is the code with fixes/C18-toroot-invalidates-cache.patch, fixes/C18-loader-vertices-is-array.patch and
+# fixes/C18-writer-skips-non-array.patch applied (no switches: on a tree without one of them the check reports the defect
+# as a VIOLATION with the failing input: keys C18:view-stale-after-toroot, C18:doc-cell-morphology-named-vertices,
+# C18:doc-cell-without-morphology, C18:doc-plain-morphology).
 
 
 def regenerate(ctx):
@@ -191,10 +189,12 @@ def gen_small_arr(rng):
     return a
 
 
-def gen_doc(rng, collide=False, mixed=False):
+def gen_doc(rng, collide=False, mixed=False, share=False):
     """0-3 cells and 0-3 stand-alone morphologies.  collide: ids drawn from a small pool (same id for a cell and a
     morphology, explicit ids of the shape of the writer's defaults, a cell morphology called 'vertices').
-    mixed: some cells have no embedded morphology / a plain neuroml.Morphology, some stand-alone morphologies are plain"""
+    mixed: some cells have no embedded morphology / a plain neuroml.Morphology, some stand-alone morphologies are plain.
+    share: one ArrayMorphology OBJECT is the morphology of several cells and / or listed (once) as a stand-alone morphology
+    as well ("obj": members with the same number hold the same Python object)"""
     nc, nm = rng.randint(0, 3), rng.randint(0, 3)
     pool = list(IDS)
     rng.shuffle(pool)
@@ -225,7 +225,24 @@ def gen_doc(rng, collide=False, mixed=False):
         if mixed and rng.random() < 0.25:
             m["kind"] = "plain"
         morphs.append(m)
+    if share:
+        arr_cells = [k for k, c in enumerate(cells) if c.get("kind") is None]
+        if arr_cells:
+            src = rng.choice(arr_cells)
+            cells[src]["obj"] = 1
+            for k in arr_cells:                     # other cells using the same object
+                if k != src and rng.random() < 0.6:
+                    cells[k].update({x: cells[src][x] for x in ("mid", "v", "c", "m", "int")}, obj=1)
+            arr_morphs = [k for k, m in enumerate(morphs) if m.get("kind") is None]
+            if arr_morphs and rng.random() < 0.7:   # ... and listed (once) as a stand-alone morphology too
+                k = rng.choice(arr_morphs)
+                morphs[k].update({x: cells[src][x] for x in ("v", "c", "m", "int")}, id=cells[src]["mid"], obj=1)
     return {"cells": cells, "morphs": morphs}
+
+
+def obj_key(x, pfx, k):
+    """which Python object the ArrayMorphology of a member is: an explicit "obj" number (shared), else one of its own"""
+    return x["obj"] if "obj" in x else (1000 if pfx == "c" else 2000) + k
 
 
 # ---------------------------------------------------------------- real library
@@ -337,17 +354,26 @@ def real_file(case, root, k):
     try:
         if "cells" in case:
             doc = neuroml.NeuroMLDocument(id="d")
-            for c in case["cells"]:
+            objs = {}            # members with the same "obj" number hold the SAME ArrayMorphology object
+            for k, c in enumerate(case["cells"]):
                 cell = neuroml.Cell(id=c["id"])
                 if c.get("kind") == "plain":
                     cell.morphology = neuroml.Morphology(id=c["mid"])
                 elif c.get("kind") != "none":
-                    cell.morphology = mk_real(c, id=c["mid"])
+                    key = obj_key(c, "c", k)
+                    if key not in objs:
+                        objs[key] = mk_real(c, id=c["mid"])
+                    cell.morphology = objs[key]
                     written.append(cell.morphology)
                 doc.cells.append(cell)
-            for m in case["morphs"]:
-                doc.morphology.append(neuroml.Morphology(id=m["id"]) if m.get("kind") == "plain" else mk_real(m, id=m["id"]))
-                if m.get("kind") != "plain":
+            for k, m in enumerate(case["morphs"]):
+                if m.get("kind") == "plain":
+                    doc.morphology.append(neuroml.Morphology(id=m["id"]))
+                else:
+                    key = obj_key(m, "m", k)
+                    if key not in objs:
+                        objs[key] = mk_real(m, id=m["id"])
+                    doc.morphology.append(objs[key])
                     written.append(doc.morphology[-1])
             wd = [[canon_arrays(m), canon_dtypes(m)] for m in written]
             ArrayMorphWriter.write(doc, p)
@@ -653,8 +679,7 @@ def real_hist(a, calls):
 
 
 def hist_line(arrs, made):
-    return json.dumps({"op": "hist", "v": arrs["v"], "c": arrs["c"], "m": arrs["m"], "calls": made,
-                       "fixed": TOROOT_CLEARS_CACHE})
+    return json.dumps({"op": "hist", "v": arrs["v"], "c": arrs["c"], "m": arrs["m"], "calls": made})
 
 
 def call_str(c):
@@ -862,8 +887,22 @@ def multiset(ms):
 
 
 def top_names(case):
-    cells = [c["id"] if c["id"] is not None else "Cell%d" % k for k, c in enumerate(case["cells"])]
-    morphs = [m["id"] if m["id"] is not None else "Morphology%d" % k for k, m in enumerate(case["morphs"])]
+    """root group names the writer uses: only members that are array morphologies get a group; the default name is made of
+    the position among ALL members of the list"""
+    arr = lambda x: x.get("kind") in (None, "array")  # noqa: E731
+    cells = [c["id"] if c["id"] is not None else "Cell%d" % k for k, c in enumerate(case["cells"]) if arr(c)]
+    # the id of a morphology OBJECT is assigned where the writer first meets it (cell loop first) and then stays
+    ids = {}
+    for k, c in enumerate(case["cells"]):
+        if arr(c):
+            cur = ids.get(obj_key(c, "c", k), c["mid"])
+            ids[obj_key(c, "c", k)] = cur if cur is not None else "Morphology%d" % k
+    morphs = []
+    for k, m in enumerate(case["morphs"]):
+        if arr(m):
+            cur = ids.get(obj_key(m, "m", k), m["id"])
+            ids[obj_key(m, "m", k)] = cur if cur is not None else "Morphology%d" % k
+            morphs.append(ids[obj_key(m, "m", k)])
     return cells, morphs
 
 
@@ -893,6 +932,9 @@ def check_file(ctx, case, real, model):
         # which of the known obstacles does this document have?  (a finding key is used only when the document has that
         # obstacle AND the writer / loader failed in the way that obstacle makes it fail; anything else is a violation)
         nonarr = [x for x in items if not is_arr(x)]
+        objs = [x["obj"] for x in items if "obj" in x]
+        if len(objs) != len(set(objs)):
+            ctx.count("doc:shared-morphology-object")
         dflt_clash = len(set(cells)) != len(cells) or len(set(morphs)) != len(morphs)
         share = bool(set(cells) & set(morphs))
         vert = any(is_arr(c) and c["mid"] == "vertices" for c in case["cells"])
@@ -951,9 +993,11 @@ def file_line(case):
     def arrj(x):
         return {"v": x["v"], "c": x["c"], "m": eff_mask(x)}
     if "cells" in case:
-        return json.dumps({"op": "doc", "loader_fixed": LOADER_FIXED, "writer_fixed": WRITER_FIXED,
-                           "cells": [dict(arrj(c), id=c["id"], mid=c["mid"], kind=c.get("kind", "array")) for c in case["cells"]],
-                           "morphs": [dict(arrj(m), id=m["id"], kind=m.get("kind", "array")) for m in case["morphs"]]})
+        return json.dumps({"op": "doc",
+                           "cells": [dict(arrj(c), id=c["id"], mid=c["mid"], kind=c.get("kind", "array"), obj=obj_key(c, "c", k))
+                                     for k, c in enumerate(case["cells"])],
+                           "morphs": [dict(arrj(m), id=m["id"], kind=m.get("kind", "array"), obj=obj_key(m, "m", k))
+                                      for k, m in enumerate(case["morphs"])]})
     return json.dumps(dict(arrj(case), op="single", id=case["id"]))
 
 
@@ -1064,7 +1108,8 @@ CORPUS = {
         # re-rooting there and back on one object, views before / in between / after; no view read before the first to_root
         ({"v": V4, "c": [-1, 0, 1, 2], "m": None}, [{"o": "toroot", "j": 3}, {"o": "conv"}, {"o": "toroot", "j": 0},
                                                     {"o": "get", "i": 0}, {"o": "iter"}, {"o": "conv"}]),
-        # KNOWN FINDING: to_root does not invalidate the segment cache
+        # regression (was finding C18:view-stale-after-toroot, repaired by fixes/C18-toroot-invalidates-cache.patch): a view read
+        # between two re-rootings must not be served again afterwards
         ({"v": V4, "c": [-1, 0, 1, 2], "m": None}, [{"o": "toroot", "j": 3}, {"o": "get", "i": 0}, {"o": "toroot", "j": 0},
                                                     {"o": "get", "i": 0}, {"o": "conv"}]),
         # user-assigned segment (outside the property): the conversion must not pick it up, iteration runs past the arrays
@@ -1088,18 +1133,39 @@ CORPUS = {
         {"cells": [{"id": None, "mid": None, "v": V4, "c": [-1, 0, 1, 1], "m": None},
                    {"id": None, "mid": None, "v": V4[:1], "c": [-1], "m": None}], "morphs": []},
         {"cells": [], "morphs": []},
-        # KNOWN FINDINGS: name collisions in the flat group layout
+        # KNOWN FINDING (open): name collision in the flat group layout
         {"cells": [{"id": "x", "mid": "m", "v": V4[:2], "c": [-1, 0], "m": None}],
          "morphs": [{"id": "x", "v": V4[:3], "c": [-1, 0, 0], "m": None}]},
+        # regression (was C18:doc-cell-morphology-named-vertices, repaired by fixes/C18-loader-vertices-is-array.patch)
         {"cells": [{"id": "x", "mid": "vertices", "v": V4[:2], "c": [-1, 0], "m": None}], "morphs": []},
-        # ... a cell that refers to a stand-alone morphology instead of embedding one; a plain Morphology in the document
+        {"cells": [{"id": "x", "mid": "vertices", "v": V4[:2], "c": [-1, 0], "m": None},
+                   {"id": "vertices", "mid": "vertices", "v": V4[:3], "c": [-1, 0, 1], "m": [0, 1, 0]}],
+         "morphs": [{"id": "connectivity", "v": V4[:1], "c": [-1], "m": None}]},
+        # regression (were C18:doc-cell-without-morphology / C18:doc-plain-morphology, repaired by
+        # fixes/C18-writer-skips-non-array.patch): a cell that refers to a stand-alone morphology instead of embedding one; a
+        # plain Morphology in the document; skipped members still count for the default names; their ids cannot collide
         {"cells": [{"id": "c", "mid": None, "kind": "none", "v": [], "c": [], "m": None}],
          "morphs": [{"id": "m", "v": V4[:3], "c": [-1, 0, 0], "m": None}]},
         {"cells": [{"id": "c", "mid": "pm", "kind": "plain", "v": [], "c": [], "m": None},
                    {"id": "c2", "mid": "am", "v": V4[:2], "c": [-1, 0], "m": None}], "morphs": []},
         {"cells": [], "morphs": [{"id": "pm", "kind": "plain", "v": [], "c": [], "m": None},
                                  {"id": "m", "v": V4[:3], "c": [-1, 0, 0], "m": None}]},
-        # ... the default name of an id-less morphology / cell equals an explicit id
+        {"cells": [{"id": "m", "mid": None, "kind": "none", "v": [], "c": [], "m": None},
+                   {"id": None, "mid": None, "v": V4[:1], "c": [-1], "m": None},
+                   {"id": "p", "mid": "pm", "kind": "plain", "v": [], "c": [], "m": None}],
+         "morphs": [{"id": "pm", "kind": "plain", "v": [], "c": [], "m": None},
+                    {"id": None, "v": V4[:2], "c": [-1, 0], "m": None}, {"id": "m", "v": V4[:3], "c": [-1, 0, 0], "m": None}]},
+        # one ArrayMorphology OBJECT used by two cells and listed stand-alone as well ("obj"): written three times, under the
+        # name its first occurrence was given
+        {"cells": [{"id": None, "mid": None, "obj": 1, "v": V4[:2], "c": [-1, 0], "m": None},
+                   {"id": None, "mid": None, "kind": "none", "v": [], "c": [], "m": None},
+                   {"id": None, "mid": None, "obj": 1, "v": V4[:2], "c": [-1, 0], "m": None}],
+         "morphs": [{"id": None, "obj": 1, "v": V4[:2], "c": [-1, 0], "m": None}, {"id": None, "v": V4[:1], "c": [-1], "m": None}]},
+        # KNOWN FINDING (open, default-id-collides through sharing): the object of cell 0 was named Morphology0 by the cell loop;
+        # listed again as the SECOND stand-alone morphology it keeps that name = the default name of the id-less first one
+        {"cells": [{"id": "c", "mid": None, "obj": 1, "v": V4[:2], "c": [-1, 0], "m": None}],
+         "morphs": [{"id": None, "v": V4[:1], "c": [-1], "m": None}, {"id": None, "obj": 1, "v": V4[:2], "c": [-1, 0], "m": None}]},
+        # KNOWN FINDING (open): the default name of an id-less morphology / cell equals an explicit id
         {"cells": [], "morphs": [{"id": "Morphology1", "v": V4[:2], "c": [-1, 0], "m": None},
                                  {"id": None, "v": V4[:3], "c": [-1, 0, 0], "m": None}]},
         {"cells": [{"id": None, "mid": None, "v": V4[:2], "c": [-1, 0], "m": None},
@@ -1169,7 +1235,7 @@ def run(ctx):
         files.append({"id": rng.choice([None, None, "m", "vertices", "Morphology", "a10"]), "v": a["v"], "c": a["c"],
                       "m": a["m"], "int": a["int"]})
     for i in range(ctx.n(200, 1500) * mult):
-        files.append(gen_doc(rng, collide=(i % 5 == 4), mixed=(i % 6 == 5)))
+        files.append(gen_doc(rng, collide=(i % 5 == 4), mixed=(i % 6 == 5), share=(i % 4 == 3)))
     if big:
         ctx.count("tier:thorough-sizes")
     run_cases(ctx, morphs, toroots, files, hists)
